@@ -35,6 +35,8 @@ pub fn entrait_for_single_fn(attr: &EntraitFnAttr, input_fn: InputFn) -> syn::Re
     }
     .analyze(input_fn.input_sig(), &mut generics_analyzer)?];
     let sub_attributes = analyze_sub_attributes(&input_fn.fn_attrs);
+    #[cfg(entrait_verif)]
+    crate::verif::point("entrait_fn::fn_analyzed", trait_fns.len());
 
     let trait_dependency_mode = detect_trait_dependency_mode(
         &fn_input_mode,
@@ -109,6 +111,8 @@ pub fn entrait_for_mod(attr: &EntraitFnAttr, input_mod: InputMod) -> syn::Result
         })
         .collect::<syn::Result<Vec<_>>>()?;
     let sub_attributes = analyze_sub_attributes(&input_mod.attrs);
+    #[cfg(entrait_verif)]
+    crate::verif::point("entrait_fn::mod_analyzed", trait_fns.len());
 
     let trait_dependency_mode = detect_trait_dependency_mode(
         &fn_input_mode,
